@@ -271,7 +271,7 @@ const ISSUER_CANDS: [usize; 5] = [4, 5, 6, 7, 8];
 const IDS: [usize; 2] = [8, 9];
 const ID_CANDS: [usize; 3] = [8, 9, 10];
 const ACCOUNTS: [usize; 3] = [11, 12, 13];
-const TOPICS: [u32; 3] = [1, 2, 7];
+const TOPICS: [u32; 4] = [1, 2, 3, 7];
 const SCHEMES: [u32; 6] = [ED25519, SECP256R1, SECP256K1, ED25519_B, SECP256R1_B, SECP256K1_B];
 
 /// the verifier a scheme number selects (0: none)
@@ -431,29 +431,37 @@ struct Sim {
     u: Universe,
     keys: Vec<Key>,
     ts: u64,
+    seq: u32,
     tags: HashMap<(Vec<u8>, Vec<u8>), u32>,
     ids: HashMap<Vec<u8>, (usize, u32)>, // claim id -> (issuer index, topic)
     rv: Vec<(usize, usize, u32, Vec<u8>)>, // revocation triples seen in revoke op lines
     pool: Vec<Vec<u8>>,                    // claim data used so far
 }
 
-fn set_ts(e: &Env, ts: u64) {
+const SEQ0: u32 = 100;
+const DAY: u32 = 17280; // ledgers
+/// persistent entries of the unmodified code stay live over the whole horizon of a sequence
+/// (the harness never moves further than `MAX_ADVANCE` ledgers in total)
+const MAX_TTL: u32 = 6_312_000;
+const MAX_ADVANCE: u32 = 5_000_000;
+
+fn set_ledger_at(e: &Env, seq: u32, ts: u64) {
     e.ledger().set(LedgerInfo {
         timestamp: ts,
         protocol_version: 25,
-        sequence_number: 100,
+        sequence_number: seq,
         network_id: NET,
         base_reserve: 10,
         min_temp_entry_ttl: 16,
-        min_persistent_entry_ttl: 4_000_000,
-        max_entry_ttl: 6_000_000,
+        min_persistent_entry_ttl: MAX_TTL - 1,
+        max_entry_ttl: MAX_TTL,
     });
 }
 
 impl Sim {
     fn new() -> Sim {
         let e = Env::default();
-        set_ts(&e, TS0);
+        set_ledger_at(&e, SEQ0, TS0);
         e.cost_estimate().budget().reset_unlimited();
         let mut u = Universe::new(&e, 0);
         u.push(e.register(RegC, ()));
@@ -479,7 +487,7 @@ impl Sim {
                 ids.insert(sha3::Keccak256::digest(&d).to_vec(), (i, t));
             }
         }
-        Sim { e, u, keys: make_keys(), ts: TS0, tags: HashMap::new(), ids, rv: vec![], pool: vec![] }
+        Sim { e, u, keys: make_keys(), ts: TS0, seq: SEQ0, tags: HashMap::new(), ids, rv: vec![], pool: vec![] }
     }
     fn a(&self, i: usize) -> Val {
         self.u.a(i).into_val(&self.e)
@@ -743,8 +751,18 @@ impl Sim {
     }
     fn time(&mut self, t: &mut Trace, ts: u64) {
         self.ts = ts;
-        set_ts(&self.e, ts);
+        set_ledger_at(&self.e, self.seq, ts);
         self.finish(t, format!("id time ts={}", ts), true);
+    }
+    /// `n` ledgers (5 s each) pass and nobody touches any entry
+    fn advance(&mut self, t: &mut Trace, n: u32) {
+        if self.seq - SEQ0 + n > MAX_ADVANCE {
+            return;
+        }
+        self.seq += n;
+        self.ts += 5 * n as u64;
+        set_ledger_at(&self.e, self.seq, self.ts);
+        self.finish(t, format!("id advance n={} ts={}", n, self.ts), true);
     }
     fn claim_fields(&self, c: &ClaimSpec) -> String {
         format!(
@@ -1125,6 +1143,156 @@ fn directed(t: &mut Trace, rng: &mut Rng) {
         s.verify_op(t, 11);
     }
 
+    // (3d) an issuer's topic list narrowed by dropping SEVERAL topics in one update: two adjacent ones,
+    // the first ones, the last ones, all but one, a disjoint replacement. Identity 8 relies on issuer 4
+    // for every topic; issuer 5 is trusted for everything too but has issued nothing, so each dropped
+    // topic is left without a counted claim.
+    for (shape_no, (shape, new_list)) in [
+        ("drop-first-two", vec![3u32, 7]),
+        ("drop-middle-two", vec![1, 7]),
+        ("drop-last-two", vec![1, 2]),
+        ("drop-first-three", vec![7]),
+        ("drop-last-three", vec![1]),
+        ("keep-second", vec![2]),
+        ("drop-nonadjacent", vec![2, 7]),
+        ("reordered-subset", vec![7, 1]),
+    ]
+    .into_iter()
+    .enumerate()
+    {
+        t.seq(&format!("directed narrowing several topics {}", shape));
+        let mut s = Sim::new();
+        setup_basic(&mut s, t);
+        for tp in TOPICS {
+            s.add_topic(t, 0, tp);
+        }
+        s.add_issuer(t, 0, 4, &TOPICS);
+        s.add_issuer(t, 0, 5, &TOPICS);
+        for tp in TOPICS {
+            s.allow_key(t, 4, 1, ED25519, 0, tp);
+            let c = s.good_claim(4, 8, tp, 1, TS0 + 5000, b"n", rng);
+            s.add_claim(t, 8, &c);
+        }
+        s.verify_op(t, 11); // every topic settled by issuer 4
+        s.update_issuer(t, 0, 4, &new_list);
+        s.verify_op(t, 11); // must fail: the dropped topics have no counted claim any more
+        // topic by topic: require only one dropped / kept topic at a time (starting with another
+        // topic in every shape: each probe disturbs the registry for the later ones)
+        let mut order = TOPICS.to_vec();
+        order.rotate_left(shape_no % TOPICS.len());
+        for tp in order {
+            for other in TOPICS {
+                if other != tp {
+                    s.remove_topic(t, 0, other);
+                }
+            }
+            s.verify_op(t, 11); // ok iff issuer 4 kept `tp`
+            for other in TOPICS {
+                if other != tp {
+                    s.add_topic(t, 0, other);
+                }
+            }
+            // re-adding wiped the other topics' issuer lists: restore both issuers' assignments
+            s.update_issuer(t, 0, 5, &TOPICS);
+            let mut back = new_list.clone();
+            if !back.contains(&tp) {
+                back.push(tp);
+            }
+            s.update_issuer(t, 0, 4, &back);
+            s.update_issuer(t, 0, 4, &new_list);
+        }
+    }
+    // disjoint replacement and back
+    t.seq("directed narrowing disjoint replacement");
+    let mut s = Sim::new();
+    setup_basic(&mut s, t);
+    for tp in TOPICS {
+        s.add_topic(t, 0, tp);
+    }
+    s.remove_topic(t, 0, 7);
+    s.add_issuer(t, 0, 4, &[1, 2]);
+    s.add_issuer(t, 0, 5, &[1, 2, 3]);
+    for tp in [1u32, 2] {
+        s.allow_key(t, 4, 3, SECP256R1, 0, tp);
+        let c = s.good_claim(4, 8, tp, 3, TS0 + 5000, b"d", rng);
+        s.add_claim(t, 8, &c);
+    }
+    s.allow_key(t, 5, 5, SECP256K1, 0, 3);
+    let c3 = s.good_claim(5, 8, 3, 5, TS0 + 5000, b"d3", rng);
+    s.add_claim(t, 8, &c3);
+    s.verify_op(t, 11); // ok
+    s.update_issuer(t, 0, 4, &[3]); // [1,2] -> [3]
+    s.verify_op(t, 11); // must fail: nobody counted for 1 and 2
+    s.update_issuer(t, 0, 4, &[2, 1]);
+    s.verify_op(t, 11); // ok again
+    s.update_issuer(t, 0, 5, &[1]); // [1,2,3] -> [1]: topic 3 loses its only issuer with a claim
+    s.verify_op(t, 11);
+    s.update_issuer(t, 0, 5, &[3]);
+    s.verify_op(t, 11);
+
+    // (3e) time passes (ledgers AND timestamp) without anybody touching an entry: what was revoked,
+    // bumped, removed, de-listed or expired stays so; what was valid (long-lived claim) stays valid
+    for k in [1u32, 3, 5] {
+        t.seq(&format!("directed time passes key={}", k));
+        let mut s = Sim::new();
+        setup_basic(&mut s, t);
+        s.add_topic(t, 0, 1);
+        s.add_issuer(t, 0, 4, &[1]);
+        let sch = s.keys[(k - 1) as usize].scheme();
+        s.allow_key(t, 4, k, sch, 0, 1);
+        let far = TS0 + 2_000_000_000;
+        let c0 = s.good_claim(4, 8, 1, k, far, b"long", rng);
+        s.add_claim(t, 8, &c0);
+        s.verify_op(t, 11);
+        s.advance(t, 31 * DAY);
+        s.verify_op(t, 11); // still valid
+        let d0 = c0.data.clone();
+        s.revoke(t, 4, 8, 1, &d0, true);
+        s.verify_op(t, 11);
+        s.advance(t, DAY);
+        s.valid(t, 8, &c0);
+        s.advance(t, 31 * DAY); // longer than CLAIMS_EXTEND_AMOUNT, nobody asked in between
+        s.valid(t, 8, &c0); // revoked stays revoked
+        s.verify_op(t, 11);
+        s.advance(t, 100 * DAY);
+        s.valid(t, 8, &c0);
+        s.revoke(t, 4, 8, 1, &d0, false);
+        s.valid(t, 8, &c0);
+        s.verify_op(t, 11);
+        // nonce bump, then a long idle period
+        s.invalidate(t, 4, 8, 1);
+        s.advance(t, 31 * DAY);
+        s.valid(t, 8, &c0); // pre-bump signature stays invalid
+        s.verify_op(t, 11);
+        let c1 = s.good_claim(4, 8, 1, k, far, b"long", rng);
+        s.add_claim(t, 8, &c1);
+        s.verify_op(t, 11);
+        // key removed, idle, still removed
+        s.remove_key(t, 4, k, sch, 0, 1);
+        s.advance(t, 31 * DAY);
+        s.valid(t, 8, &c1);
+        s.verify_op(t, 11);
+        s.allow_key(t, 4, k, sch, 0, 1);
+        s.verify_op(t, 11);
+        // issuer de-listed, idle, still de-listed
+        s.remove_issuer(t, 0, 4);
+        s.advance(t, 31 * DAY);
+        s.verify_op(t, 11);
+        s.add_issuer(t, 0, 4, &[1]);
+        s.verify_op(t, 11);
+        // a short-lived claim expires by the clock
+        let short = s.good_claim(4, 9, 1, k, s.ts + 5 * DAY as u64, b"short", rng);
+        s.add_claim(t, 9, &short);
+        s.verify_op(t, 12);
+        s.advance(t, DAY - 1);
+        s.verify_op(t, 12); // one ledger before valid_until
+        s.advance(t, 1);
+        s.verify_op(t, 12); // timestamp == valid_until: expired
+        s.advance(t, 100 * DAY);
+        s.verify_op(t, 12);
+        s.verify_op(t, 11);
+    }
+
     // (4) tampering of every field, directly at the issuer
     for k in [1u32, 3, 5] {
         t.seq(&format!("directed tampering key={}", k));
@@ -1192,7 +1360,7 @@ fn directed(t: &mut Trace, rng: &mut Rng) {
 // ------------------------------------------------------------------------------------------
 
 fn subset(rng: &mut Rng, xs: &[u32]) -> Vec<u32> {
-    let mut v: Vec<u32> = xs.iter().copied().filter(|_| rng.chance(55)).collect();
+    let mut v: Vec<u32> = xs.iter().copied().filter(|_| rng.chance(65)).collect();
     if v.is_empty() && rng.chance(85) {
         v.push(*rng.pick(xs));
     }
@@ -1201,6 +1369,42 @@ fn subset(rng: &mut Rng, xs: &[u32]) -> Vec<u32> {
     }
     if rng.chance(30) {
         v.reverse();
+    }
+    v
+}
+
+/// a new topic list that DROPS topics of the stored list `old`: a run of two or more adjacent ones,
+/// the first ones, the last ones, all but one, or everything (replaced by topics not in `old`)
+fn narrowed(rng: &mut Rng, old: &[u32], registered: &[u32]) -> Vec<u32> {
+    let n = old.len();
+    let fresh: Vec<u32> = registered.iter().copied().filter(|t| !old.contains(t)).collect();
+    let mut v: Vec<u32> = match rng.below(6) {
+        0 if n >= 3 => {
+            // drop a run of two adjacent topics
+            let start = rng.below((n - 1) as u64) as usize;
+            old.iter().enumerate().filter(|(j, _)| *j != start && *j != start + 1).map(|(_, t)| *t).collect()
+        }
+        1 if n >= 2 => old[2.min(n - 1)..].to_vec(), // drop the first two (the first of two)
+        2 if n >= 2 => old[..(n.saturating_sub(2)).max(1)].to_vec(), // drop the last two (the last of two)
+        3 if n >= 2 => vec![old[rng.below(n as u64) as usize]], // all but one
+        4 if !fresh.is_empty() => fresh.clone(), // disjoint replacement
+        _ => {
+            if n >= 2 {
+                vec![old[n - 1]] // keep only the last
+            } else {
+                old.to_vec()
+            }
+        }
+    };
+    if v.is_empty() {
+        v = if !fresh.is_empty() { vec![fresh[0]] } else { old.to_vec() };
+    }
+    if rng.chance(35) {
+        for f in fresh.iter() {
+            if rng.chance(40) {
+                v.push(*f);
+            }
+        }
     }
     v
 }
@@ -1240,6 +1444,7 @@ fn gen_claim(s: &mut Sim, rng: &mut Rng, perturb: bool) -> (usize, ClaimSpec) {
         0 => s.ts + 1,
         1 => s.ts + 2,
         2 => u64::MAX,
+        3..=8 => s.ts + 2_000_000_000, // outlives every ledger jump
         _ => s.ts + *rng.pick(&[10u64, 100, 1000, 100_000]),
     };
     let live: Vec<Vec<u8>> = s
@@ -1378,7 +1583,8 @@ fn random_seq(t: &mut Trace, rng: &mut Rng, label: &str, len: u64) {
             s.remove_issuer(t, reg, i);
         } else if r < 23 {
             let i = if !cur_issuers.is_empty() && rng.chance(80) { *rng.pick(&cur_issuers) } else { *rng.pick(&ISSUER_CANDS) };
-            let ts = sub(rng);
+            let old: Vec<u32> = s.q::<SVec<u32>>(reg, "get_trusted_issuer_claim_topics", args(&s.e, [s.a(i)])).map(|x| x.iter().collect()).unwrap_or_default();
+            let ts = if old.len() >= 2 && rng.chance(50) { narrowed(rng, &old, &cur_topics) } else { sub(rng) };
             s.update_issuer(t, reg, i, &ts);
         } else if r < 27 {
             let a = *rng.pick(&ACCOUNTS);
@@ -1546,6 +1752,9 @@ fn random_seq(t: &mut Trace, rng: &mut Rng, label: &str, len: u64) {
             let data = if !s.pool.is_empty() && rng.chance(90) { rng.pick(&s.pool).clone() } else { vec![1, 2, 3] };
             let on = rng.chance(70);
             s.revoke(t, i, d, tp, &data, on);
+        } else if r < 86 {
+            let n = *rng.pick(&[DAY, DAY, 31 * DAY, 31 * DAY, 100 * DAY, 1, 29 * DAY, 30 * DAY]);
+            s.advance(t, n);
         } else if r < 89 {
             let ts = match rng.below(6) {
                 0 => s.ts + 1,
@@ -1574,7 +1783,7 @@ fn main() {
     let mut t = Trace::from_args();
     let seed = seed_from_env();
     let thorough = arg_str("--tier").as_deref() == Some("thorough");
-    let nseq = arg_u64("--seqs", if thorough { 150 } else { 17 });
+    let nseq = arg_u64("--seqs", if thorough { 150 } else { 12 });
     let len = arg_u64("--len", 60);
     let mut rng = Rng::new(seed);
     directed(&mut t, &mut rng);
